@@ -93,6 +93,8 @@ def modelid(x):
 
 
 class WorldAdapter:
+    multi = True      # track every model state that explains the observations so far (replay.walk)
+    needs_pre = ('SetEnabledFault',)
     def __init__(self, desper, K, via=None, controllers=False, weak=False):
         """via: list of access modes to rotate over behaviours: 'world' (plain World calls), 'ctrl' (Controller methods),
         'func' (module-level shorthands), 'ref' (ComponentReference / ProcessorReference descriptors).
